@@ -37,7 +37,8 @@ CONSTANTS LeafTypes,   \* types of object/constant leaves
           BfWidths,    \* widths of bit-field leaves and bit-field lvalues ({} = none)
           MaxDepth, MaxLeaves, MaxStack,
           MinParen,    \* BOOLEAN: spell with the fewest parentheses the grammar allows
-          TwoPhase     \* BOOLEAN: choose the kind of step first (balances -simulate)
+          TwoPhase,    \* BOOLEAN: choose the kind of step first (balances -simulate)
+          Rnd          \* BOOLEAN: every parameter of a step is one random element (for -simulate) instead of all elements
 
 VARIABLES st, cnt, kind, fin
 vars == <<st, cnt, kind, fin>>
@@ -217,9 +218,9 @@ LitVals == {<<"1", "0x1", One64>>, <<"2147483647", "0x7fffffff", MaxOf("i")>>, <
 LitSufs == {"", "U", "L", "UL", "LL", "ULL"}
 (* kinds of bit-field: <<"s" | "u" | "B", width>>  (signed int f:w, unsigned f:w, _Bool f:1) *)
 BfKinds == {<<sg, w>> : sg \in {"s", "u"}, w \in BfWidths} \cup (IF BfWidths = {} THEN {} ELSE {<<"B", 1>>})
-BfGrid(k) == IF k[1] = "B" THEN {Zero64, One64}
-             ELSE {Zero64, One64, ConvBf(k[1] = "s", k[2], Ones64), ConvBf(k[1] = "s", k[2], Shl64(One64, k[2] - 1)), ConvBf(k[1] = "s", k[2], P5)}
 BfConv(k, v) == IF k[1] = "B" THEN Conv("B", v) ELSE ConvBf(k[1] = "s", k[2], v)
+(* only values the member can hold: an out-of-range initialiser of a signed member would be implementation-defined *)
+BfGrid(k) == {BfConv(k, x) : x \in {Zero64, One64, Ones64, P5, Shl64(One64, k[2] - 1)}}
 BfProm(k) == IF k[1] = "B" THEN "i" ELSE BfPromoted(k[1] = "s", k[2])
 BfDeclT(k) == IF k[1] = "B" THEN "B" ELSE IF k[1] = "s" THEN "i" ELSE "u"
 
@@ -331,26 +332,27 @@ Mine(t, w) == st # <<>> \/ ((Rank(t) + w[1] + w[2] + w[3] + w[4]) % NParts) = Pa
 Push(e) == st' = Append(st, e) /\ cnt' = cnt + 1
 Repl(k, e) == st' = Append(Pop(k), e) /\ cnt' = cnt
 
+Pick(S) == IF Rnd /\ S # {} THEN {RandomElement(S)} ELSE S
 Kinds == {"leaf", "enum", "lit", "bf", "un", "cast", "bin", "cond", "asg", "asgbf", "inc", "fin"}
-DoLeaf == CanPush /\ \E t \in LeafTypes : \E w \in GridOf(t) : Mine(t, w) /\ Push(LeafEnt(t, w, cnt))
-DoEnum == UseEnum /\ CanPush /\ \E e \in EnumSet : Mine("i", e[2]) /\ Push(EnumEnt(e))
-DoLit == UseLit /\ CanPush /\ \E l \in LitVals : \E hex \in BOOLEAN : \E suf \in LitSufs :
+DoLeaf == CanPush /\ \E t \in Pick(LeafTypes) : \E w \in Pick(GridOf(t)) : Mine(t, w) /\ Push(LeafEnt(t, w, cnt))
+DoEnum == UseEnum /\ CanPush /\ \E e \in Pick(EnumSet) : Mine("i", e[2]) /\ Push(EnumEnt(e))
+DoLit == UseLit /\ CanPush /\ \E l \in Pick(LitVals) : \E hex \in Pick(BOOLEAN) : \E suf \in Pick(LitSufs) :
            LitType(hex, suf, l[3]) # "none" /\ Mine("i", l[3]) /\ Push(LitEnt(l, hex, suf))
-DoBf == CanPush /\ \E k \in BfKinds : \E w \in BfGrid(k) : Mine("i", w) /\ Push(BfEnt(k, w, cnt))
-DoUn == Len(st) >= 1 /\ Top(0).ok /\ DepthOK(Top(0).d + 1, 1) /\ \E op \in UnOps : Repl(1, UnEnt(op, Top(0)))
-DoCast == Len(st) >= 1 /\ Top(0).ok /\ DepthOK(Top(0).d + 1, 1) /\ \E t \in CastTypes : Repl(1, CastEnt(t, Top(0)))
+DoBf == CanPush /\ \E k \in Pick(BfKinds) : \E w \in Pick(BfGrid(k)) : Mine("i", w) /\ Push(BfEnt(k, w, cnt))
+DoUn == Len(st) >= 1 /\ Top(0).ok /\ DepthOK(Top(0).d + 1, 1) /\ \E op \in Pick(UnOps) : Repl(1, UnEnt(op, Top(0)))
+DoCast == Len(st) >= 1 /\ Top(0).ok /\ DepthOK(Top(0).d + 1, 1) /\ \E t \in Pick(CastTypes) : Repl(1, CastEnt(t, Top(0)))
 DoBin1(op, x, y) ==
   CASE op \in StrictBin -> y.ok /\ Repl(2, BinEnt(op, x, y))
     [] op \in {"&&", "||"} -> (y.ok \/ ~LogRightEvaluated(op, x)) /\ Repl(2, LogEnt(op, x, y))
     [] op = "," -> y.ok /\ ~y.bf /\ Repl(2, CommaEnt(x, y))
-DoBin == Len(st) >= 2 /\ Top(1).ok /\ DepthOK(Max2(Top(0).d, Top(1).d) + 1, 2) /\ \E op \in BinOps : DoBin1(op, Top(1), Top(0))
+DoBin == Len(st) >= 2 /\ Top(1).ok /\ DepthOK(Max2(Top(0).d, Top(1).d) + 1, 2) /\ \E op \in Pick(BinOps) : DoBin1(op, Top(1), Top(0))
 DoCond == UseCond /\ Len(st) >= 3 /\ Top(2).ok /\ DepthOK(Max2(Top(0).d, Max2(Top(1).d, Top(2).d)) + 1, 3)
             /\ (IF Top(2).v # Zero64 THEN Top(1).ok ELSE Top(0).ok) /\ Repl(3, CondEnt(Top(2), Top(1), Top(0)))
-DoAsg == Len(st) >= 1 /\ Top(0).ok /\ DepthOK(Top(0).d + 1, 1) /\ Leaves < MaxLeaves /\ \E op \in AsgOps : \E t \in LvTypes :
-           \E v0 \in GridOf(t) : st' = Append(Pop(1), AsgEnt(op, t, v0, Top(0), cnt)) /\ cnt' = cnt + 1
-DoAsgBf == Len(st) >= 1 /\ Top(0).ok /\ DepthOK(Top(0).d + 1, 1) /\ Leaves < MaxLeaves /\ \E op \in AsgOps : \E k \in BfKinds :
-           \E v0 \in BfGrid(k) : st' = Append(Pop(1), AsgBfEnt(op, k, v0, Top(0), cnt)) /\ cnt' = cnt + 1
-DoInc == CanPush /\ 1 <= MaxDepth /\ \E op \in IncOps : \E t \in LvTypes : \E v0 \in GridOf(t) :
+DoAsg == Len(st) >= 1 /\ Top(0).ok /\ DepthOK(Top(0).d + 1, 1) /\ Leaves < MaxLeaves /\ \E op \in Pick(AsgOps) : \E t \in Pick(LvTypes) :
+           \E v0 \in Pick(GridOf(t)) : st' = Append(Pop(1), AsgEnt(op, t, v0, Top(0), cnt)) /\ cnt' = cnt + 1
+DoAsgBf == Len(st) >= 1 /\ Top(0).ok /\ DepthOK(Top(0).d + 1, 1) /\ Leaves < MaxLeaves /\ \E op \in Pick(AsgOps) : \E k \in Pick(BfKinds) :
+           \E v0 \in Pick(BfGrid(k)) : st' = Append(Pop(1), AsgBfEnt(op, k, v0, Top(0), cnt)) /\ cnt' = cnt + 1
+DoInc == CanPush /\ 1 <= MaxDepth /\ \E op \in Pick(IncOps) : \E t \in Pick(LvTypes) : \E v0 \in Pick(GridOf(t)) :
            Mine(t, v0) /\ Push(IncEnt(op, t, v0, cnt))
 DoFin == Len(st) = 1 /\ fin' = TRUE /\ UNCHANGED <<st, cnt>>
 Do(kd) ==
